@@ -4,6 +4,7 @@
 //! via the AnyTLS stream pool.
 
 use crate::client::Client;
+use crate::protocol::{Command, Frame};
 use crate::util::{AnyTlsError, Result};
 use bytes::Bytes;
 use std::sync::Arc;
@@ -126,6 +127,8 @@ async fn handle_http_proxy_connection(
                 break;
             }
         }
+        // The proxied side has finished: pass the end of stream on to the application
+        let _ = client_write.shutdown().await;
     });
 
     let to_proxy = tokio::spawn(async move {
@@ -147,6 +150,11 @@ async fn handle_http_proxy_connection(
                 break;
             }
         }
+        // The application has finished sending: tell the peer with a FIN (written after
+        // all data frames of this task, so it cannot overtake them)
+        let _ = session_for_write
+            .write_control_frame(Frame::control(Command::Fin, stream_id))
+            .await;
     });
 
     let _ = tokio::join!(to_client, to_proxy);
